@@ -19,8 +19,13 @@ import (
 	"encoding/json"
 	"flag"
 	"fmt"
+	goast "go/ast"
+	"go/parser"
+	"go/token"
 	"hash/fnv"
+	iofs "io/fs"
 	"os"
+	"path/filepath"
 	"reflect"
 	"runtime/pprof"
 	"sort"
@@ -33,12 +38,17 @@ func init() {
 	commands["c18-run"] = c18Run
 }
 
-func c18RootsCmd(_ []string) int {
+func c18RootsCmd(args []string) int {
+	fs := flag.NewFlagSet("c18-roots", flag.ExitOnError)
+	repo := fs.String("repo", "", "cog source tree: also list the DeepCopy methods and copy helpers declared in its source (go/parser)")
+	_ = fs.Parse(args)
 	roots := c18Roots()
 	names := make([]string, 0, len(roots))
 	withTypes := []string{}
+	pkgs := map[string]bool{}
 	for n, t := range roots {
 		names = append(names, n)
+		pkgs[t.PkgPath()] = true
 		_, f := c18New(t, c18Shape{Root: n, Chain: []string{"scalar"}, Fill: "wellformed", Payload: "scalar"})
 		if f.err != nil {
 			fmt.Fprintf(os.Stderr, "cannot instantiate %s: %v\n", n, f.err)
@@ -50,32 +60,113 @@ func c18RootsCmd(_ []string) int {
 	}
 	sort.Strings(names)
 	sort.Strings(withTypes)
-	raw, _ := json.Marshal(J{"roots": names, "with_types": withTypes})
+	out := J{"roots": names, "with_types": withTypes}
+	if *repo != "" {
+		decl, err := c18DeclaredCopiers(*repo)
+		if err != nil {
+			fmt.Fprintln(os.Stderr, err)
+			return 2
+		}
+		out["declared"] = decl
+	}
+	raw, _ := json.Marshal(out)
 	fmt.Println(string(raw))
 	return 0
+}
+
+// c18DeclaredCopiers parses the non-test Go files under <repo>/internal and lists every method named
+// DeepCopy (package directory, receiver type) and every other function or method whose name contains
+// "copy" (helpers such as deepCopyAny): the check compares this list, taken from the CURRENT tree,
+// with what reflection reached, so that a copy routine on a type the harness does not reach is noticed.
+func c18DeclaredCopiers(repo string) ([]J, error) {
+	var out []J
+	root := filepath.Join(repo, "internal")
+	err := filepath.WalkDir(root, func(path string, d iofs.DirEntry, err error) error {
+		if err != nil {
+			return err
+		}
+		if d.IsDir() || !strings.HasSuffix(path, ".go") || strings.HasSuffix(path, "_test.go") {
+			return nil
+		}
+		f, err := parser.ParseFile(token.NewFileSet(), path, nil, parser.SkipObjectResolution)
+		if err != nil {
+			return err
+		}
+		rel, _ := filepath.Rel(repo, filepath.Dir(path))
+		for _, dcl := range f.Decls {
+			fd, ok := dcl.(*goast.FuncDecl)
+			if !ok || !strings.Contains(strings.ToLower(fd.Name.Name), "copy") {
+				continue
+			}
+			recv := ""
+			if fd.Recv != nil && len(fd.Recv.List) == 1 {
+				e := fd.Recv.List[0].Type
+				if st, ok := e.(*goast.StarExpr); ok {
+					e = st.X
+				}
+				if ix, ok := e.(*goast.IndexListExpr); ok {
+					e = ix.X
+				}
+				if ix, ok := e.(*goast.IndexExpr); ok {
+					e = ix.X
+				}
+				if id, ok := e.(*goast.Ident); ok {
+					recv = id.Name
+				}
+			}
+			out = append(out, J{"pkg": filepath.ToSlash(rel), "recv": recv, "name": fd.Name.Name, "file": filepath.Base(path)})
+		}
+		return nil
+	})
+	sort.Slice(out, func(i, j int) bool {
+		return fmt.Sprint(out[i]["pkg"], out[i]["recv"], out[i]["name"]) < fmt.Sprint(out[j]["pkg"], out[j]["recv"], out[j]["name"])
+	})
+	return out, err
 }
 
 // ------------------------------------------------------------------ analysis of one (original, copy) pair
 
 type c18Analysis struct {
-	w      *walker
-	o, k   gval
-	diffs  []isoDiff
-	shared []sharedRec
+	w         *walker
+	o, k, k2  gval
+	diffs     []isoDiff   // original vs copy (and vs second copy, where that differs from the first)
+	shared    []sharedRec // cells the original shares with the (first) copy: the reportable ones, with paths
+	sharedAll int         // all pairs among original, copy, second copy
+	between   []sharedRec // cells the two copies share with each other but not with the original
 }
 
-func c18Analyse(orig, cp reflect.Value) (*c18Analysis, error) {
+// c18Analyse extracts the heap graphs of the original, the copy and (optionally) a second copy taken
+// from the same original, and judges Iso and Disjoint.
+func c18Analyse(orig, cp reflect.Value, more ...reflect.Value) (*c18Analysis, error) {
 	w := newWalker()
 	a := &c18Analysis{w: w}
 	a.o = w.root(orig, "o")
-	w.owner = 1
 	a.k = w.root(cp, "k")
+	if len(more) > 0 {
+		a.k2 = w.root(more[0], "k2")
+	}
 	if w.err != nil {
 		return nil, w.err
 	}
 	w.iso(a.o, a.k, nil, &a.diffs)
-	a.shared = w.shared
+	if len(more) > 0 {
+		var d2 []isoDiff
+		w.iso(a.o, a.k2, nil, &d2)
+		if len(d2) != len(a.diffs) { // the same routine on the same value: report what only the second call shows
+			a.diffs = append(a.diffs, d2...)
+		}
+	}
+	a.sharedAll = len(w.shared)
+	for _, sh := range w.shared {
+		switch {
+		case sh.a == 0 && sh.b == 1:
+			a.shared = append(a.shared, sh)
+		case sh.a == 1 && sh.b == 2:
+			a.between = append(a.between, sh)
+		}
+	}
 	for _, ov := range w.overlaps() {
+		a.sharedAll++
 		a.shared = append(a.shared, sharedRec{cell: ov, kind: "arr-overlap"})
 	}
 	return a, nil
@@ -258,8 +349,19 @@ type c18Stats struct {
 	FieldsFilled map[string]int `json:"observable_leaves_per_root"`
 }
 
+// c18Step: one step of a mutation plan: mutation kind op performed at every site of value a (o, k, k2)
+type c18Step struct {
+	A  string `json:"a"`
+	Op string `json:"op"`
+}
+
+type c18Plans struct {
+	Core   [][]c18Step `json:"core"`   // executed on every shape: together they reveal every defect class of HeapMC
+	Rotate [][]c18Step `json:"rotate"` // the other revealing plans: a few per shape, in rotation
+}
+
 type c18Opts struct {
-	plans     [][]string
+	plans     c18Plans
 	pairs     int
 	seed      int
 	traceMax  int
@@ -284,25 +386,28 @@ func longestPrefix(path string, has func(string) bool) (string, bool) {
 	return "", false
 }
 
-func planKey(p []string) string { return strings.Join(p, "+") }
+func planKey(p []c18Step) string {
+	parts := []string{}
+	for _, st := range p {
+		parts = append(parts, st.A+":"+st.Op)
+	}
+	return strings.Join(parts, "+")
+}
 
-func c18PlansFor(idx int, o c18Opts) [][]string {
-	var singles, pairs [][]string
-	for _, p := range o.plans {
-		if len(p) == 1 {
-			singles = append(singles, p)
-		} else {
-			pairs = append(pairs, p)
-		}
+func c18PlansFor(idx int, o c18Opts) [][]c18Step {
+	out := append([][]c18Step{}, o.plans.Core...)
+	rot := o.plans.Rotate
+	if o.pairs < 0 || o.pairs >= len(rot) {
+		return append(out, rot...)
 	}
-	out := append([][]string{}, singles...)
-	if o.pairs < 0 || o.pairs >= len(pairs) {
-		return append(out, pairs...)
-	}
-	for j := 0; j < o.pairs && len(pairs) > 0; j++ {
-		out = append(out, pairs[(idx*o.pairs+j+o.seed)%len(pairs)])
+	for j := 0; j < o.pairs && len(rot) > 0; j++ {
+		out = append(out, rot[(idx*o.pairs+j+o.seed)%len(rot)])
 	}
 	return out
+}
+
+func firstField(flatPath string) string {
+	return strings.Trim(strings.SplitN(flatPath+".", ".", 3)[1], "[]{}#")
 }
 
 func c18RunShape(idx int, s c18Shape, t reflect.Type, o c18Opts, st *c18Stats, mu *sync.Mutex, traceQuota *int) c18Out {
@@ -310,7 +415,10 @@ func c18RunShape(idx int, s c18Shape, t reflect.Type, o c18Opts, st *c18Stats, m
 	add := func(sig string, ex J) { out.findings = append(out.findings, c18Finding{sig, ex}) }
 	shapeJ := J{"root": s.Root, "chain": s.Chain, "fill": s.Fill, "payload": s.Payload}
 
-	sharedAttr := map[string]c18Attr{} // cell id of the first instance -> attribution (paths are the same in every instance)
+	// attribution of shared cells, by their path in the original and in the copy (the same in every instance:
+	// the filler is deterministic)
+	byOrigPath := map[string]c18Attr{}
+	byCopyPath := map[string]c18Attr{}
 	memo := map[string]c18Attr{}
 	attribute := func(root reflect.Value, path []pstep, class string) c18Attr {
 		key := class + "|" + pathNorm(path)
@@ -336,17 +444,25 @@ func c18RunShape(idx int, s c18Shape, t reflect.Type, o c18Opts, st *c18Stats, m
 			out.harness = fmt.Sprintf("filler: %s: %v", s.key(), f.err)
 			return out
 		}
-		before := map[string]string{}
-		flatten(orig, "", before)
+		var before map[string]string
+		if pi == 0 {
+			before = map[string]string{}
+			flatten(orig, "", before)
+		}
 		cp, err := c18DeepCopy(orig)
+		var cp2 reflect.Value
+		if err == nil {
+			cp2, err = c18DeepCopy(orig)
+		}
 		if err != nil {
 			add(fmt.Sprintf("C18/%s.DeepCopy/panic/%s", s.Root, s.Fill), J{"shape": shapeJ, "problem": err.Error()})
 			return out
 		}
+		vals := map[string]reflect.Value{"o": orig, "k": cp, "k2": cp2}
 		var an *c18Analysis
 		wantTrace := false
 		if pi == 0 || small {
-			an, err = c18Analyse(orig, cp)
+			an, err = c18Analyse(orig, cp, cp2)
 			if err != nil {
 				out.harness = fmt.Sprintf("extract: %s: %v", s.key(), err)
 				return out
@@ -358,7 +474,7 @@ func c18RunShape(idx int, s c18Shape, t reflect.Type, o c18Opts, st *c18Stats, m
 			afterCopy := map[string]string{}
 			flatten(orig, "", afterCopy)
 			if d := flatDiff(before, afterCopy); len(d) > 0 {
-				add(fmt.Sprintf("C18/%s.DeepCopy/Mutates-receiver/%s", s.Root, strings.Trim(strings.SplitN(d[0], ".", 3)[1], "[]{}#")),
+				add(fmt.Sprintf("C18/%s.DeepCopy/Mutates-receiver/%s", s.Root, firstField(d[0])),
 					J{"shape": shapeJ, "changed": d[:min(len(d), 5)]})
 			}
 			mu.Lock()
@@ -371,7 +487,7 @@ func c18RunShape(idx int, s c18Shape, t reflect.Type, o c18Opts, st *c18Stats, m
 			if len(an.diffs) == 0 {
 				st.IsoOK++
 			}
-			if len(an.shared) == 0 {
+			if an.sharedAll == 0 {
 				st.DisjointOK++
 			}
 			if len(before) > st.FieldsFilled[s.Root] {
@@ -389,72 +505,105 @@ func c18RunShape(idx int, s c18Shape, t reflect.Type, o c18Opts, st *c18Stats, m
 					continue
 				}
 				at := attribute(orig, sh.origPath, "Shared")
-				sharedAttr[pathString(sh.origPath)] = at
+				byOrigPath[pathString(sh.origPath)] = at
+				byCopyPath[pathString(sh.copyPath)] = at
 				add(fmt.Sprintf("C18/%s.DeepCopy/Shared/%s", at.typ, at.field),
-					J{"shape": shapeJ, "path": pathString(sh.origPath), "copy_path": pathString(sh.copyPath), "cell_kind": sh.kind})
+					J{"shape": shapeJ, "path": pathString(sh.origPath), "copy_path": pathString(sh.copyPath), "cell_kind": sh.kind,
+						"cap": an.w.cells[sh.cell].Cap, "len_seen_by_original": len(an.w.cells[sh.cell].Slots)})
+			}
+			for _, sh := range an.between {
+				at := c18Attr{s.Root, firstField(pathString(sh.origPath))}
+				byCopyPath[pathString(sh.origPath)] = at
+				byCopyPath[pathString(sh.copyPath)] = at
+				add(fmt.Sprintf("C18/%s.DeepCopy/Shared-between-copies/%s", at.typ, at.field),
+					J{"shape": shapeJ, "path_in_first_copy": pathString(sh.origPath), "path_in_second_copy": pathString(sh.copyPath)})
 			}
 		}
-		// ---- the mutation plan, on the copy
+		// ---- the mutation plan: each step through one value; after each step the other two must be unchanged
 		mw := newWalker()
 		if an != nil {
 			mw = an.w
 		}
-		muts := []mutRec{}
+		base := map[string]map[string]string{}
+		for name, v := range vals {
+			base[name] = map[string]string{}
+			flatten(v, "", base[name])
+		}
+		type stepRec struct {
+			A    string   `json:"a"`
+			Op   string   `json:"op"`
+			Muts []mutRec `json:"muts"`
+		}
+		steps := []stepRec{}
+		leaks := map[string]bool{}
 		opsWithSites := map[string]bool{}
-		for _, op := range plan {
-			mw.mut, mw.seen, mw.muts = op, map[string]bool{}, nil
-			mw.root(cp, "k")
+		writes := 0
+		seenSig := map[string]bool{}
+		for si, stp := range plan {
+			mw.mut, mw.seen, mw.muts = stp.Op, map[string]bool{}, nil
+			mw.root(vals[stp.A], stp.A)
 			if mw.err != nil {
 				out.harness = fmt.Sprintf("mutate: %s: %v", s.key(), mw.err)
 				return out
 			}
-			muts = append(muts, mw.muts...)
-			if len(mw.muts) > 0 {
-				opsWithSites[op] = true
+			ms := append([]mutRec{}, mw.muts...)
+			steps = append(steps, stepRec{stp.A, stp.Op, ms})
+			writes += len(ms)
+			if len(ms) > 0 {
+				opsWithSites[stp.Op] = true
 			}
 			mu.Lock()
-			for _, m := range mw.muts {
+			for _, m := range ms {
 				st.Sites[m.Op]++
 			}
 			mu.Unlock()
+			for _, victim := range []string{"o", "k", "k2"} {
+				if victim == stp.A && si == len(plan)-1 {
+					continue
+				}
+				cur := map[string]string{}
+				flatten(vals[victim], "", cur)
+				if victim != stp.A {
+					changed := flatDiff(base[victim], cur)
+					if len(changed) > 0 {
+						leaks[stp.A+">"+victim] = true
+					}
+					for _, cpath := range changed {
+						lookup := byCopyPath
+						if victim == "o" {
+							lookup = byOrigPath
+						}
+						sig := ""
+						if ps, found := longestPrefix(cpath, func(p string) bool { _, in := lookup[p]; return in }); found {
+							at := lookup[ps]
+							sig = fmt.Sprintf("C18/%s.DeepCopy/Mutation-visible/%s", at.typ, at.field)
+						} else {
+							sig = fmt.Sprintf("C18/%s.DeepCopy/Mutation-visible/unattributed:%s", s.Root, firstField(cpath))
+						}
+						if seenSig[sig] {
+							continue
+						}
+						seenSig[sig] = true
+						add(sig, J{"shape": shapeJ, "plan": plan, "step": si + 1, "through": stp.A, "changed_in": victim, "path": cpath,
+							"was": base[victim][cpath], "now": cur[cpath]})
+					}
+				}
+				base[victim] = cur
+			}
 		}
 		mw.mut = ""
-		after := map[string]string{}
-		flatten(orig, "", after)
-		changed := flatDiff(before, after)
 		mu.Lock()
 		st.Cases++
 		for op := range opsWithSites {
 			st.CasesWithOp[op]++
 		}
-		if len(changed) > 0 {
+		if len(leaks) > 0 {
 			st.Visible++
 		}
-		if len(muts) > 0 {
+		if writes > 0 {
 			st.Nontrivial++
 		}
 		mu.Unlock()
-		seenSig := map[string]bool{}
-		for _, cpath := range changed {
-			at, ok := c18Attr{}, false
-			best := -1
-			_ = best
-			if ps, found := longestPrefix(cpath, func(p string) bool { _, in := sharedAttr[p]; return in }); found {
-				at, ok, best = sharedAttr[ps], true, len(ps)
-			}
-			sig := ""
-			if ok {
-				sig = fmt.Sprintf("C18/%s.DeepCopy/Mutation-visible/%s", at.typ, at.field)
-			} else {
-				first := strings.Trim(strings.SplitN(cpath+".", ".", 3)[1], "[]{}#")
-				sig = fmt.Sprintf("C18/%s.DeepCopy/Mutation-visible/unattributed:%s", s.Root, first)
-			}
-			if seenSig[sig] {
-				continue
-			}
-			seenSig[sig] = true
-			add(sig, J{"shape": shapeJ, "plan": plan, "changed_in_original": cpath, "was": before[cpath], "now": after[cpath]})
-		}
 		// ---- record for HeapTrace.tla
 		if wantTrace {
 			mu.Lock()
@@ -464,10 +613,15 @@ func c18RunShape(idx int, s c18Shape, t reflect.Type, o c18Opts, st *c18Stats, m
 			}
 			mu.Unlock()
 			if take {
+				ls := []string{}
+				for l := range leaks {
+					ls = append(ls, l)
+				}
+				sort.Strings(ls)
 				out.records = append(out.records, J{
-					"shape": shapeJ, "plan": plan, "cells": an.w.cells, "o": an.o, "k": an.k, "muts": muts,
-					"changed": len(changed) > 0, "go_iso": len(an.diffs) == 0, "go_disjoint": len(an.shared) == 0,
-					"ncells": len(an.w.cells),
+					"shape": shapeJ, "plan": plan, "cells": an.w.cells, "o": an.o, "k": an.k, "k2": an.k2, "steps": steps,
+					"leaks": ls, "go_iso": len(an.diffs) == 0, "go_disjoint": an.sharedAll == 0,
+					"ncells": len(an.w.cells), "writes": writes,
 				})
 			}
 		}
@@ -501,8 +655,8 @@ func c18ReadShapes(path string) ([]c18Shape, error) {
 func c18Run(args []string) int {
 	fs := flag.NewFlagSet("c18-run", flag.ExitOnError)
 	shapesIn := fs.String("shapes", "", "ndjson file of shapes (HeapShapes.tla)")
-	plansIn := fs.String("plans", "", "json file: list of mutation plans (lists of op names, HeapMC.tla)")
-	pairs := fs.Int("pairs", -1, "number of two-step plans per shape (rotating); -1 = all")
+	plansIn := fs.String("plans", "", "json file {core: [...], rotate: [...]}: mutation plans = lists of {a, op} steps (HeapMC.tla)")
+	pairs := fs.Int("pairs", -1, "number of plans of the rotating set per shape; -1 = all")
 	seed := fs.Int("seed", 1, "rotation offset")
 	traceOut := fs.String("trace", "", "write records for HeapTrace.tla")
 	traceMax := fs.Int("trace-max", 0, "maximum number of trace records")
@@ -521,7 +675,7 @@ func c18Run(args []string) int {
 		fmt.Fprintln(os.Stderr, err)
 		return 2
 	}
-	var plans [][]string
+	var plans c18Plans
 	raw, err := os.ReadFile(*plansIn)
 	if err == nil {
 		err = json.Unmarshal(raw, &plans)
@@ -530,7 +684,8 @@ func c18Run(args []string) int {
 		fmt.Fprintln(os.Stderr, err)
 		return 2
 	}
-	sort.Slice(plans, func(i, j int) bool { return planKey(plans[i]) < planKey(plans[j]) })
+	sort.Slice(plans.Core, func(i, j int) bool { return planKey(plans.Core[i]) < planKey(plans.Core[j]) })
+	sort.Slice(plans.Rotate, func(i, j int) bool { return planKey(plans.Rotate[i]) < planKey(plans.Rotate[j]) })
 	roots := c18Roots()
 	hasTypes := map[string]bool{}
 	for n, t := range roots {
@@ -611,8 +766,8 @@ func c18Run(args []string) int {
 						tw.Write(b)
 						tw.WriteByte('\n')
 					}
-					if ms, _ := r["muts"].([]mutRec); len(samples) < 2 && len(ms) > 0 && r["ncells"].(int) <= 30 {
-						if len(samples) == 0 || r["changed"].(bool) != samples[0].(J)["changed"].(bool) {
+					if len(samples) < 2 && r["writes"].(int) > 0 && r["ncells"].(int) <= 40 {
+						if len(samples) == 0 || len(r["leaks"].([]string)) != len(samples[0].(J)["leaks"].([]string)) {
 							samples = append(samples, r)
 						}
 					}
@@ -642,7 +797,7 @@ func c18Run(args []string) int {
 		rootNames = append(rootNames, n)
 	}
 	sort.Strings(rootNames)
-	sum := J{"stats": st, "signatures": sigs, "traced": traced, "plans": len(plans), "roots": rootNames, "samples": samples}
+	sum := J{"stats": st, "signatures": sigs, "traced": traced, "plans": len(plans.Core) + len(plans.Rotate), "roots": rootNames, "samples": samples}
 	b, _ := json.Marshal(sum)
 	os.Stdout.Write(b)
 	os.Stdout.WriteString("\n")
